@@ -1,6 +1,6 @@
 //go:build verif
 
-package rsa
+package rsa_test
 
 // C11 (schedules): threshold-RSA key shares used by several signers at once
 // (uncached share exponent memo; the blinded path spawns a goroutine).
@@ -16,6 +16,7 @@ import (
 
 	"github.com/cloudflare/circl/internal/verifmc"
 	"github.com/cloudflare/circl/internal/verifmc/sched"
+	"github.com/cloudflare/circl/tss/rsa"
 )
 
 func c11LoadKey(t testing.TB) *stdrsa.PrivateKey {
@@ -39,7 +40,7 @@ func c11LoadKey(t testing.TB) *stdrsa.PrivateKey {
 
 func c11RsaScenarios(t testing.TB) []sched.Scenario {
 	key := c11LoadKey(t)
-	shares, err := Deal(verifmc.NewDetReader("c11-deal"), 3, 2, key, false)
+	shares, err := rsa.Deal(verifmc.NewDetReader("c11-deal"), 3, 2, key, false)
 	if err != nil {
 		t.Fatal(err)
 	}
@@ -47,12 +48,12 @@ func c11RsaScenarios(t testing.TB) []sched.Scenario {
 	if err != nil {
 		t.Fatal(err)
 	}
-	digest, err := PadHash(&PKCS1v15Padder{}, crypto.SHA256, &key.PublicKey, []byte("c11 message"))
+	digest, err := rsa.PadHash(&rsa.PKCS1v15Padder{}, crypto.SHA256, &key.PublicKey, []byte("c11 message"))
 	if err != nil {
 		t.Fatal(err)
 	}
 	fresh := func() interface{} {
-		ks := new(KeyShare)
+		ks := new(rsa.KeyShare)
 		if err := ks.UnmarshalBinary(append([]byte{}, raw...)); err != nil {
 			panic(err)
 		}
@@ -61,12 +62,12 @@ func c11RsaScenarios(t testing.TB) []sched.Scenario {
 	signer := func(blind, parallel bool) func(interface{}) interface{} {
 		return func(sh interface{}) interface{} {
 			var rnd verifmc.ConstReader = 0x17
-			var ss SignShare
+			var ss rsa.SignShare
 			var err error
 			if blind {
-				ss, err = sh.(*KeyShare).Sign(rnd, &key.PublicKey, digest, parallel)
+				ss, err = sh.(*rsa.KeyShare).Sign(rnd, &key.PublicKey, digest, parallel)
 			} else {
-				ss, err = sh.(*KeyShare).Sign(nil, &key.PublicKey, digest, parallel)
+				ss, err = sh.(*rsa.KeyShare).Sign(nil, &key.PublicKey, digest, parallel)
 			}
 			if err != nil {
 				return err
